@@ -319,6 +319,26 @@ main(int argc, char **argv)
 		tp_pair_init(&W, (uint64_t)seed, (uint64_t)conf, (conf & 1) ? TP_CHUNK_SMALL : TP_CHUNK_WHOLE);
 		snprintf(tp_case, sizeof tp_case, "seed=%lld conf=%d suite=%04x ver=%04x layout=%d big=%d depth=%d",
 			seed, conf, sl[0], mode_ver[mode], layout, big, depth);
+		if (conf % 4 == 3) {
+			/* configurations 3, 7, 11: both contexts have already carried a connection (ended in order, abandoned with
+			   records in flight, failed on a bad record): everything explored below runs on contexts that were reset */
+			tp_cfg c0 = cc, s0 = sc;
+			memset(c0.seed, 0x17 + conf, 32); memset(s0.seed, 0x29 + conf, 32);
+			if (tp_ep_start(&W.c, &c0) && tp_ep_start(&W.s, &s0) && tp_handshake(&W, 1000000)) {
+				W.c.tx_key = 0x3333; W.s.tx_key = 0x4444; W.c.rx_key = W.s.tx_key; W.s.rx_key = W.c.tx_key;
+				tp_run_data(&W, 700, 900, TP_W_MIXED, 1000000);
+				if (conf == 3) tp_run_close(&W, 0, 100000);
+				else if (conf == 7) { tp_act_write(&W.c, 50); tp_act_flush(&W.c, 0); tp_act_write(&W.s, 50); }
+				else {
+					static const unsigned char junk[21] = { 23, 3, 3, 0, 16, 9, 9, 9, 9, 9, 9, 9, 9, 9, 9, 9, 9, 9, 9, 9, 9 };
+					tp_fifo_put(&W.s2c, junk, sizeof junk);
+					tp_act_recvrec(&W.c, &W.s2c, 100000); tp_act_recvrec(&W.c, &W.s2c, 100000);
+				}
+				vf_stat("configurations_on_used_contexts", 1);
+			}
+			W.c2s.rd = W.c2s.wr = 0; W.s2c.rd = W.s2c.wr = 0;
+			cc.reuse_ctx = 1; sc.reuse_ctx = 1;
+		}
 		if (!tp_ep_start(&W.c, &cc) || !tp_ep_start(&W.s, &sc)) {
 			TP_VIOL("setup:reset-failed", "reset returned 0");
 			tp_pair_free(&W);
